@@ -535,6 +535,10 @@ func readMessage(tr *tokenReader) (Message, error) {
 			if err != nil {
 				return msg, readError(tr.nextToken, err.Error())
 			}
+			if fdInteger == 0 {
+				// 0 ends a message on the wire; a field cannot carry it
+				return msg, readError(tr.nextToken, "message field index must be between 1 and 255")
+			}
 			if _, ok := msg.Fields[uint8(fdInteger)]; ok {
 				return msg, readError(tr.nextToken, "message has duplicate field index %d", fdInteger)
 			}
